@@ -720,6 +720,8 @@ class Inliner:
                             self.expanded[m.qualname] = self.expanded.get(m.qualname, 0) + 1
                 self.objs = {}
             if ast.dump(new) != before:
+                from .model import _SplitTupleAssign
+                new = _SplitTupleAssign().visit(new)
                 ast.fix_missing_locations(new)
                 fi.raw_node = fi.node
                 self.prog._by_node.pop(id(fi.node), None)
